@@ -33,6 +33,18 @@ func verifNewRuleStub(line string, id int) (rules.Rule, error) {
 	if line == "" {
 		return nil, nil
 	}
+	if len(line) > 64 {
+		// the long lines of the harnesses are runs of 'a': a network rule (checked against the real parser by the driver)
+		allA := true
+		for i := 0; i < len(line); i++ {
+			if line[i] != 'a' {
+				allA = false
+			}
+		}
+		if allA {
+			return &rules.NetworkRule{RuleText: line, FilterListID: id}, nil
+		}
+	}
 	switch verifUFStr("classify", line) & 7 { // no division: a remainder by 5 stalls the bit-blaster
 	case 0:
 		return nil, nil
@@ -238,32 +250,34 @@ func verifC11FileScan(n int) {
 	verifAssert(e != nil, "c19: retrieval from a closed file is an error")
 }
 
-// verifC11Long: the scanner's line splitting on a line about as long as its read
+// verifC11Long: scanning a list with a line about as long as the scanner's read
 // buffer: a filler of readerBufferSize-4+k bytes, four symbolic bytes over {a, LF}
-// and a last byte.  However long a line is, it extends to its line feed, lines
-// are consecutive and the index of a line is the offset of its first byte.
+// and a last byte.  Observed through the public scanner only: the scanned sequence
+// equals the reference parse (kind, text, list id, index of the first byte of the
+// line) however long a line is, and every index retrieves its rule.
 func verifC11Long(k int) {
 	n := readerBufferSize - 4 + k
 	content := strings.Repeat("a", n) + verifString("mid", 4, "a\n") + "a"
-	s := NewRuleScanner(strings.NewReader(content), 1, false)
-	pos := 0
-	for i := 0; i < 7; i++ {
-		line, idx, err := s.readNextLine()
-		if err != nil {
-			break
-		}
-		verifAssert(idx == pos, "c11: a line's index is the offset of its first byte")
-		verifAssert(pos+len(line) <= len(content), "c11: lines are consecutive pieces of the content")
-		verifAssert(content[pos:pos+len(line)] == line, "c11: lines are consecutive pieces of the content")
-		want := len(content) - pos
-		if j := strings.IndexByte(content[pos:], '\n'); j >= 0 {
-			want = j + 1
-		}
-		verifAssert(len(line) == want, "c11: a line extends to its line feed however long it is")
-		pos += len(line)
+	l := &StringRuleList{ID: 3, RulesText: content}
+	want := verifRefParse(content, 3, false)
+	sc := l.NewScanner()
+	var got []verifScanned
+	for sc.Scan() {
+		r, idx := sc.Rule()
+		got = append(got, verifScanned{verifKind(r), r.Text(), r.GetFilterListID(), idx})
+		verifAssert(len(got) <= 8, "c11: the scanner terminates")
 	}
 	verifReach("c11.long")
-	verifAssert(pos == len(content), "c11: the whole content is scanned")
+	verifAssert(len(got) == len(want), "c11: scanned sequence == reference parse (count)")
+	if len(got) == len(want) {
+		for i := range got {
+			verifAssert(got[i].kind == want[i].kind && got[i].text == want[i].text && got[i].id == want[i].id && got[i].idx == want[i].idx,
+				"c11: scanned sequence == reference parse (kind, text, list id, index)")
+			r, err := l.RetrieveRule(got[i].idx)
+			verifAssert(err == nil && r != nil && verifKind(r) == got[i].kind && r.Text() == got[i].text,
+				"c11: RetrieveRule(idx) returns the scanned rule")
+		}
+	}
 }
 
 // verifC11MultiScan: the storage scanner over k in-memory lists (ids 1..k) of n
